@@ -72,7 +72,8 @@ def gen_cases(chk):
             groups += [g for g in G.gen_groups(rng) if not groups or g[0] > groups[-1][1]]
             subs.append((3, 10, G.fmt12(groups)))
         subs.sort(key=lambda s: (s[0], s[1]))
-        tbl = G.cmap_table(subs)
+        # the subtables' bytes may be stored in any order: the encoding records carry absolute offsets
+        tbl = G.cmap_table(subs, data_order=(list(reversed(range(len(subs)))) if i % 3 == 1 else None))
         add('wellformed', tbl, query_points(rng, segs, groups, 60 if not thorough else 300), segs, groups)
     # format 12 maps BMP characters that format 4 does not (not a superset-consistent font): the BMP is still format 4's
     for i in range(400 if thorough else 40):
